@@ -4,7 +4,7 @@ CONSTANTS
   NRegs = 3
   BaseSeq <- CatSeq
   BaseEq <- CatEq
-  Scales <- S_Quick
+  Scales <- S_T
   MaxLen = 5
   Queries <- Q_All
   TerminalQueries = TRUE
